@@ -37,8 +37,9 @@ Proof.
   eapply safe_all_life. apply src_safe. eapply exec_reachable; eauto.
 Qed.
 
-Lemma src_flag_atomic : f_flag_atomic facts_src = true.
-Proof. reflexivity. Qed.
+Lemma src_flag_publishes : f_flag_publishes facts_src = true /\
+  flag_publishes flag_store_orders_src flag_load_orders_src = true.
+Proof. split; reflexivity. Qed.
 
 Lemma src_async_ok : async_ok async_pre_src async_post_src async_body_src 1 = true.
 Proof. vm_compute. reflexivity. Qed.
@@ -68,3 +69,7 @@ Proof. vm_compute. reflexivity. Qed.
 (* the fences found in the source: WakeThreads (scheduler side) and WaitForTasks (worker side) *)
 Lemma src_no_lost_wakeup : lost_wakeup_possible wake_fenced_src wait_fenced_src = false.
 Proof. vm_compute. reflexivity. Qed.
+
+(* the per-backend glue code has exactly the shape the backend contracts are stated for *)
+Lemma src_glue_ok : glue_ok sched_impl_src impl_ctor_src impl_wait_src = true /\ async_unknown_stmts_src = 0%nat.
+Proof. split; vm_compute; reflexivity. Qed.
